@@ -1168,7 +1168,7 @@ fn main() {
     .map(|s| s.to_string())
     .collect();
     let rng = Rng::new(args.seed);
-    let scale = if args.thorough { 8 } else { 1 };
+    let scale = if args.thorough { 24 } else { 4 };
     let t0 = std::time::Instant::now();
     stream_witness(&mut ctx, &mut m);
     stream_router(&mut ctx, &mut m, &rng, 60 * scale, Mode::Router, "router");
